@@ -11,6 +11,15 @@
  *
  *   up=<hex> cur=<n> off=<n> left=<n> out=<need|last|err:<status>|closed>
  *
+ *   bodytake <lvl> <chunked 0|1> <cur|remaining> <off> <takes k,k,...|-> <bufhex>
+ *
+ * the same for one call of process_request_body() with an application that takes at
+ * most takes[i] bytes at its i-th invocation (everything once the list is used up);
+ * chunked = 0: identity body with remaining_upload_size = <remaining>.  Prints
+ *
+ *   up=<hex> cur=<n> off=<n> rem=<n|unk> left=<n> buf=<hex of the read buffer afterwards>
+ *   used=<number of list entries consumed> out=<need|last|err:<status>|closed>
+ *
  * Nothing but values the property talks about is printed.
  */
 #include "MHD_config.h"
@@ -26,11 +35,29 @@ uint64_t MHD_monotonic_msec_counter (void) { return 1000000; }
 static uint8_t upbuf[1 << 16];
 static size_t uplen;
 
+static uint64_t takes[64];
+static size_t ntakes, ncalls;
+static int take_mode;
+
 static enum MHD_Result
 app (void *cls, struct MHD_Connection *connection, const char *url, const char *method,
      const char *version, const char *upload_data, size_t *upload_data_size, void **req_cls)
 {
   (void) cls; (void) connection; (void) url; (void) method; (void) version; (void) req_cls;
+  if (take_mode)
+  {
+    size_t t = *upload_data_size;
+    if (ncalls < ntakes && takes[ncalls] < t)
+      t = (size_t) takes[ncalls];
+    ncalls++;
+    if (t && uplen + t <= sizeof(upbuf))
+    {
+      memcpy (upbuf + uplen, upload_data, t);
+      uplen += t;
+    }
+    *upload_data_size -= t;
+    return MHD_YES;
+  }
   if (*upload_data_size && uplen + *upload_data_size <= sizeof(upbuf))
   {
     memcpy (upbuf + uplen, upload_data, *upload_data_size);
@@ -56,12 +83,46 @@ main (void)
     static struct MHD_Connection c;
     char *endp;
 
+    int chunked = 1;
+    take_mode = 0; ntakes = 0; ncalls = 0;
+    if (l.n == 7 && ! strcmp (l.w[0], "bodytake"))
+    {
+      char *tp;
+      take_mode = 1;
+      lvl = strtol (l.w[1], &endp, 10);
+      if (*endp || lvl < -3 || lvl > 3 || (strcmp (l.w[2], "0") && strcmp (l.w[2], "1"))
+          || ! lp_u64 (l.w[3], &cur) || ! lp_u64 (l.w[4], &off))
+      { puts ("bad-op"); continue; }
+      chunked = ('1' == l.w[2][0]);
+      if ((chunked && off > cur) || (! chunked && (0 != off || 0 == cur || MHD_SIZE_UNKNOWN == cur)))
+      { puts ("bad-op"); continue; }
+      tp = l.w[5];
+      if (strcmp (tp, "-"))
+      {
+        int bad = 0;
+        while (*tp)
+        {
+          char *e2;
+          unsigned long long v = strtoull (tp, &e2, 10);
+          if (e2 == tp || (*e2 && ',' != *e2) || ntakes >= 64) { bad = 1; break; }
+          takes[ntakes++] = v;
+          tp = *e2 ? e2 + 1 : e2;
+          if (',' == *e2 && ! *tp) { bad = 1; break; }
+        }
+        if (bad) { puts ("bad-op"); continue; }
+      }
+      bytes = lp_unhex (l.w[6], &n);
+      if (NULL == bytes || 0 == n || n > 4096) { free (bytes); puts ("bad-op"); continue; }
+    }
+    else
+    {
     if (l.n != 5 || strcmp (l.w[0], "chunkrun")) { puts ("bad-op"); continue; }
     lvl = strtol (l.w[1], &endp, 10);
     if (*endp || lvl < -3 || lvl > 3 || ! lp_u64 (l.w[2], &cur) || ! lp_u64 (l.w[3], &off) || off > cur)
     { puts ("bad-op"); continue; }
     bytes = lp_unhex (l.w[4], &n);
     if (NULL == bytes || 0 == n || n > 4096) { free (bytes); puts ("bad-op"); continue; }
+    }
 
     memset (&d, 0, sizeof(d));
     memset (&c, 0, sizeof(c));
@@ -79,10 +140,10 @@ main (void)
     c.state = MHD_CONNECTION_BODY_RECEIVING;
     c.rq.http_ver = MHD_HTTP_VER_1_1;
     c.rq.http_mthd = MHD_HTTP_MTHD_POST;
-    c.rq.have_chunked_upload = true;
-    c.rq.remaining_upload_size = MHD_SIZE_UNKNOWN;
-    c.rq.current_chunk_size = cur;
-    c.rq.current_chunk_offset = off;
+    c.rq.have_chunked_upload = chunked ? true : false;
+    c.rq.remaining_upload_size = chunked ? MHD_SIZE_UNKNOWN : cur;
+    c.rq.current_chunk_size = chunked ? cur : 0;
+    c.rq.current_chunk_offset = chunked ? off : 0;
     c.in_idle = true;              /* error replies are queued without running the state machine */
     uplen = 0;
 
@@ -90,7 +151,24 @@ main (void)
 
     printf ("up=");
     lp_puthex (stdout, upbuf, uplen);
-    if (MHD_CONNECTION_BODY_RECEIVING == c.state)
+    if (take_mode)
+    {
+      size_t used = (ncalls < ntakes) ? ncalls : ntakes;
+      if (MHD_CONNECTION_BODY_RECEIVING == c.state)
+      {
+        printf (" cur=%" PRIu64 " off=%" PRIu64, c.rq.current_chunk_size, c.rq.current_chunk_offset);
+        if (MHD_SIZE_UNKNOWN == c.rq.remaining_upload_size) printf (" rem=unk");
+        else printf (" rem=%" PRIu64, c.rq.remaining_upload_size);
+        printf (" left=%zu buf=", c.read_buffer_offset);
+        lp_puthex (stdout, (const uint8_t *) c.read_buffer, c.read_buffer_offset);
+        printf (" used=%zu out=%s\n", used, (0 == c.rq.remaining_upload_size) ? "last" : "need");
+      }
+      else if (NULL != c.rp.response && c.stop_with_error)
+        printf (" cur=- off=- rem=- left=%zu buf=- used=%zu out=err:%u\n", c.read_buffer_offset, used, c.rp.responseCode);
+      else
+        printf (" cur=- off=- rem=- left=- buf=- used=%zu out=closed\n", used);
+    }
+    else if (MHD_CONNECTION_BODY_RECEIVING == c.state)
       printf (" cur=%" PRIu64 " off=%" PRIu64 " left=%zu out=%s\n", c.rq.current_chunk_size, c.rq.current_chunk_offset,
               c.read_buffer_offset, (0 == c.rq.remaining_upload_size) ? "last" : "need");
     else if (NULL != c.rp.response && c.stop_with_error)
